@@ -14,6 +14,10 @@ for i in ids:
     earlier = []
     for m in sorted(glob.glob(os.path.join(ROOT, "seeded", i + "-*", "meta.json"))):
         earlier.append("  - " + json.load(open(m)).get("what_it_changes", "")[:150].replace("\n", " "))
+    for m in sorted(glob.glob(os.path.join(ROOT, "work", "agents*", i, "meta*.json"))):        # rounds not kept yet
+        t = "  - " + json.load(open(m)).get("summary", "")[:150].replace("\n", " ")
+        if t not in earlier:
+            earlier.append(t)
     anchors = p.get("anchors") or p.get("code_anchors") or {}
     text = f"""You are working in a scratch git worktree of the Rust crate glam-rs (a SIMD linear algebra library) at {wt}. Work ONLY inside {wt}. Do NOT read, list or touch /verif or /repo (another engineer's independent work lives there and must stay unseen by you). There is no network: always pass --offline to cargo.
 
@@ -29,7 +33,9 @@ WHY THE EXISTING TESTS CANNOT SETTLE IT: {p.get('why_tests_cant', '')}
 
 CODE ANCHORS: {json.dumps(anchors) if not isinstance(anchors, str) else anchors}
 
-YOUR TASK: produce realistic changes ("mutants") to the library source (files under {wt}/src/ only) that BREAK this property while the crate still compiles and the ENTIRE existing test suite still passes (`cd {wt} && cargo test --offline 2>&1 | tail` ; about 2725 tests, takes ~1-2 min the first time). Each change should be the sort of slip a maintainer could plausibly make and should need something specific to manifest. This is the {rnd} round: the obvious slips (wrong lane / shuffle constant / sign / operand order / copy-paste between generated types / dropped normalisation / wrong threshold) have been done. Look for what is still left:
+YOUR TASK: produce realistic changes ("mutants") to the library source (files under {wt}/src/ only) that BREAK this property while the crate still compiles and the ENTIRE existing test suite still passes (`cd {wt} && cargo test --offline 2>&1 | tail` ; about 2725 tests, takes ~1-2 min the first time). Each change should be the sort of slip a maintainer could plausibly make and should need something specific to manifest. This is the {rnd} round: the obvious slips (wrong lane / shuffle constant / sign / operand order / copy-paste between generated types / dropped normalisation / wrong threshold) have been done. Look for what is still left (this round, prefer the first two kinds):
+  * changes inside SHARED HELPERS and glue that many public functions go through (src/sse2.rs, src/coresimd.rs, src/macros.rs, src/float.rs FloatExt, src/euler.rs, src/f32/math.rs, src/f64/math.rs, the `impl_*` trait-forwarding macros, Deref/DerefMut overlays, `const_*`/free constructor functions, `From`/`Into` chains that hop through an intermediate type);
+  * SEMANTICS-PRESERVING-LOOKING REFACTORS: replacing a hand-written body by a call to a "equivalent" public method that differs in one documented corner (ties, NaN, negative zero, empty input, overflow mode, debug vs release, the order of non-commutative products, which operand's sign/length wins);
   * changes that manifest only for SPECIFIC VALUES (boundary integers, MIN/MAX, negative zero, NaN payload/sign, subnormals, ties, values that differ only in a hidden or upper lane), one type of a generated family, one lane, one sign;
   * changes that need a SEQUENCE of two or three API calls, or TWO COOPERATING SITES that each look fine alone;
   * rarely used entry points: trait impls (Sum, Product, From/Into/TryFrom, AsRef/AsMut, Index, Display/Debug with format flags, Hash, PartialEq, Neg/Not on references, assigning operators with reference right-hand sides, scalar-on-the-left operators, shifts by vectors of another type), const constructors, the f64 / i8 / u8 / i16 / u16 / i64 / u64 / usize / isize twins, BVec3A/BVec4A, Mat2/Affine2/DAffine2/DMat2, `_or`, `try_`, `checked_`, `wrapping_`, `saturating_` variants, swizzles with repeated lanes and `with_*` swizzle setters;
